@@ -203,6 +203,24 @@ theorem fail_reserves_nothing_split (s : State) (h n m fee : Nat) (hf : (s.split
   repeat' split
   all_goals first | rfl | (simp_all)
 
+/-- a `SplitUTXO` whose transaction the pool refuses leaves the wallet exactly as it was (nothing
+reserved, nothing pooled, no set stored) -/
+theorem split_pool_failure_reserves_nothing (s : State) (h n m fee : Nat) :
+    (s.splitPoolFails h n m fee).1 = s := by
+  unfold State.splitPoolFails
+  split
+  · rfl
+  · rename_i r hne
+    cases hr : (s.split h n m fee).2 with
+    | ok i a b c d => exact absurd (Prod.ext rfl hr : s.split h n m fee = ((s.split h n m fee).1, .ok i a b c d)) (hne _ i a b c d)
+    | err => exact fail_reserves_nothing_split s h n m fee hr
+    | none =>
+      have := hr
+      unfold State.split at this ⊢
+      simp only at this ⊢
+      repeat' split
+      all_goals first | rfl | (simp_all)
+
 /-- **release_unlocks.** After `ReleaseInputs` none of the named inputs is reserved. -/
 theorem release_unlocks (s : State) (ids : List Nat) : ∀ id ∈ ids, (s.release ids).isLocked id = false := by
   intro id hid
